@@ -553,12 +553,47 @@ func (r *Run) Summary() string {
 		r.Harness, r.Paths, strings.Join(ks, " "), r.Asserts, r.Queries, r.SolverDur.Seconds(), r.Instrs, r.Wall.Seconds(), len(r.Violations), len(r.Inconcl))
 }
 
-// orderMapIter applies the map-iteration-order mode of the run to a freshly
-// snapshotted iterator: default insertion order; "nondet": every order is a
-// path (<=4 entries: all permutations; more: every rotation in both directions).
+// orderMapIter applies the map-iteration order selected by the harness through
+// v.MapOrder(mode, site): 0 insertion order (default); 1 every range reversed;
+// 2 every range rotated by one; 3 / 4 the same but only at the site-th range
+// executed since the call (all others in insertion order). The run-level mode
+// "nondet" (all permutations at every site) is kept for small experiments.
 func (ex *Exec) orderMapIter(it *mapIter) {
 	n := len(it.keys)
-	if ex.run.MapOrder != "nondet" || n < 2 {
+	site := ex.mapSites
+	ex.mapSites++
+	if n < 2 {
+		return
+	}
+	rev := func() {
+		for i, j := 0, n-1; i < j; i, j = i+1, j-1 {
+			it.keys[i], it.keys[j] = it.keys[j], it.keys[i]
+			it.vals[i], it.vals[j] = it.vals[j], it.vals[i]
+		}
+	}
+	rot := func() {
+		it.keys = append(append([]Val(nil), it.keys[1:]...), it.keys[0])
+		it.vals = append(append([]Val(nil), it.vals[1:]...), it.vals[0])
+	}
+	switch ex.mapMode {
+	case 1:
+		rev()
+		return
+	case 2:
+		rot()
+		return
+	case 3:
+		if site == ex.mapSite {
+			rev()
+		}
+		return
+	case 4:
+		if site == ex.mapSite {
+			rot()
+		}
+		return
+	}
+	if ex.run.MapOrder != "nondet" {
 		return
 	}
 	pick := func(k int) int { // symbolic selector in [0,k)
@@ -575,10 +610,10 @@ func (ex *Exec) orderMapIter(it *mapIter) {
 		return
 	}
 	k := pick(2 * n)
-	rot, rev := k%n, k >= n
-	keys := append(append([]Val(nil), it.keys[rot:]...), it.keys[:rot]...)
-	vals := append(append([]Val(nil), it.vals[rot:]...), it.vals[:rot]...)
-	if rev {
+	r, rv := k%n, k >= n
+	keys := append(append([]Val(nil), it.keys[r:]...), it.keys[:r]...)
+	vals := append(append([]Val(nil), it.vals[r:]...), it.vals[:r]...)
+	if rv {
 		for i, j := 0, n-1; i < j; i, j = i+1, j-1 {
 			keys[i], keys[j] = keys[j], keys[i]
 			vals[i], vals[j] = vals[j], vals[i]
